@@ -24,17 +24,38 @@ func (r *run) ownedCiphers(rh int) *attacker.Ciphers {
 		return nil
 	}
 	ih := r.msgs[rh-1].flat.Ref
-	hs, ok := r.advInit[ih]
+	mk, ok := r.advInit[ih]
 	if !ok {
 		return nil
 	}
-	c, _, err := attacker.ReadRespHello(hs, r.msgs[rh-1].bytes)
-	delete(r.advInit, ih) // a handshake state reads one RespHello
+	// a handshake state reads one RespHello: the attacker's InitHello is deterministic, so it is rebuilt
+	c, _, err := attacker.ReadRespHello(mk(), r.msgs[rh-1].bytes)
 	if err != nil {
 		return nil
 	}
 	r.owned[rh] = c
 	return c
+}
+
+// reflectedSig returns the signature of an honest RespHello made with key k that answers the same
+// (attacker-built) InitHello as RespHello rh: the attacker owns the initiator ephemeral and can read it.
+func (r *run) reflectedSig(rh int, k string) []byte {
+	if rh <= 0 || rh > len(r.msgs) {
+		return nil
+	}
+	ih := r.msgs[rh-1].flat.Ref
+	mk, ok := r.advInit[ih]
+	if !ok {
+		return nil
+	}
+	for _, m := range r.msgs {
+		if m.flat.T == "RH" && m.flat.By != "M" && m.flat.Key == k && m.flat.Sig == k && m.flat.Ref == ih {
+			if _, _, sig, err := attacker.OpenRespHello(mk(), m.bytes); err == nil && len(sig) > 0 {
+				return sig
+			}
+		}
+	}
+	return nil
 }
 
 func (r *run) emit(ev Event) {
@@ -52,7 +73,7 @@ func (r *run) emit(ev Event) {
 func replay(b *Behaviour, w *trace.Writer, seed int64) {
 	r := &run{b: b, w: w, rng: rand.New(rand.NewSource(seed*1000003 + int64(b.ID))), now: time.Unix(1_700_000_000, 0),
 		keys: map[string]ed25519.PrivateKey{}, sess: map[string]*sess{}, bind: map[int]int{},
-		advInit: map[int]*noise.HandshakeState{}, owned: map[int]*attacker.Ciphers{}, pts: map[int][]byte{}, valid: true}
+		advInit: map[int]func() *noise.HandshakeState{}, owned: map[int]*attacker.Ciphers{}, pts: map[int][]byte{}, valid: true}
 	for name, i := range keyIndex {
 		r.keys[name] = attacker.TestKey(i)
 	}
